@@ -334,12 +334,13 @@ Proof.
     + specialize (IH _ Hx). lia.
 Qed.
 
-Lemma chain_empty J f lim a W : chain J f lim a a W -> W = [].
+Lemma chain_empty_gen J f lim a c W : chain J f lim a c W -> a = c -> W = [].
 Proof.
-  inversion 1; subst; auto.
-  - match goal with H : chain _ _ _ (a + 1) a _ |- _ => apply chain_le in H; lia end.
-  - match goal with H : chain _ _ _ ?h a _ |- _ => apply chain_le in H; lia end.
+  destruct 1 as [|a c r fr rest ? ? ? ? Hch|a h c fr rest ? ? ? ? Hch]; intros E; auto;
+    apply chain_le in Hch; lia.
 Qed.
+Lemma chain_empty J f lim a W : chain J f lim a a W -> W = [].
+Proof. intros H. exact (chain_empty_gen _ _ _ _ _ _ H eq_refl). Qed.
 
 (* every frame of a chain is a retransmission of a replayable journaled message or a gap fill:
    session-level messages are never retransmitted *)
@@ -471,4 +472,38 @@ Proof.
   destruct (cstate s =? ST_AWAITING) eqn:Haw; cbn [wire nout sout rows cstate state_set].
   - rewrite Hw3, Hw2, Hrows3. cbn [wire s1]. rewrite app_assoc. auto 10.
   - rewrite Hw3, Hw2, Hrows3. cbn [wire s1]. rewrite app_assoc. auto 10.
+Qed.
+
+Lemma resend_partial f s bs es b e0 :
+  py_int bs = Some b -> py_int es = Some e0 ->
+  (cstate s = ST_ACTIVE \/ cstate s = ST_AWAITING) -> journal_ok s ->
+  1 <= b <= nout s -> fits_int64 e0 = true -> (e0 = 0 \/ nout s - 1 <= e0 \/ b = nout s) ->
+  rows_ok f b (recover b (if e0 =? 0 then sys_maxsize else e0) (rows s)) ->
+  resend_correct f s (Some bs) (Some es).
+Proof.
+  intros Hpb Hpe Hst Hj Hb He0 Hcov Hok.
+  unfold resend_correct, process_resend, requested_range. rewrite Hpb, Hpe.
+  set (sa := if cstate s =? ST_AWAITING then s else state_set ST_HANDLING s).
+  assert (Hsa : sending_ok sa /\ rows sa = rows s /\ nout sa = nout s /\ sout sa = sout s /\ wire sa = wire s
+                /\ (if cstate sa =? ST_AWAITING then cstate sa else ST_ACTIVE) = cstate s).
+  { unfold sa. destruct Hst as [H|H]; rewrite H; cbn; unfold sending_ok; cbn; rewrite ?H; auto 10. }
+  destruct Hsa as (Hs & Er & En & Eso & Ew & Ec).
+  assert (Hja : journal_ok sa) by (unfold journal_ok; rewrite Er, En, Eso; exact Hj).
+  rewrite <- Er, <- En in Hok, Hcov, Hb.
+  destruct (body_ok f sa b e0 Hs Hja Hb He0 Hcov Hok) as (W & s' & E & Hw & Hch & Hn & Hso & Hr & Hc).
+  rewrite E. cbn [fst]. rewrite Er, En, ?Ew in *. clear E.
+  destruct Hj as (HJ & Hsout & Hmax). rewrite Forall_forall in HJ.
+  pose proof (chain_seqs _ _ _ _ _ _ Hch) as Hseqs.
+  exists W. split; [exact Hw|]. split; [|rewrite Hn, Hso, Hc, Ec; auto].
+  destruct ((1 <=? b) && ((e0 =? 0) || (b <=? e0))) eqn:Hvalid.
+  - assert (Hhi : Z.max b (if e0 =? 0 then nout s else Z.min (e0 + 1) (nout s)) = nout s).
+    { destruct (e0 =? 0) eqn:E0; lia. }
+    rewrite Hhi. split; [exact Hch|].
+    intros r Hout. rewrite Hr, in_app_iff, filter_In. split.
+    + intros [[Hin _]|Hin]; [exact Hin|]. specialize (Hseqs _ Hin). lia.
+    + intros Hin. left. split; [exact Hin|]. specialize (HJ _ Hin). lia.
+  - assert (Hbc : b = nout s) by lia. subst b.
+    apply chain_empty in Hch. subst W. split; [reflexivity|].
+    intros r. rewrite Hr, app_nil_r, filter_In. split; [tauto|].
+    intros Hin. split; [exact Hin|]. specialize (HJ _ Hin). lia.
 Qed.
